@@ -70,6 +70,19 @@ func validA58(a58 []byte) (bool, error) {
 		return false, ErrEncodingInvalidVersion
 	}
 
+	// In Base58 every leading zero byte is written as a leading '1': the payload is
+	// exactly 25 bytes only if the two counts agree.
+	ones, zeros := 0, 0
+	for ones < len(a58) && a58[ones] == '1' {
+		ones++
+	}
+	for zeros < len(a) && a[zeros] == 0 {
+		zeros++
+	}
+	if ones != zeros {
+		return false, ErrEncodingTooLong
+	}
+
 	if a.embeddedChecksum() != a.computeChecksum() {
 		return false, ErrEncodingChecksumFailed
 	}
